@@ -139,6 +139,10 @@ func GenerateViews(r *lp.Rng, index int) *Design {
 		switch (k + index/3) % 4 {
 		case 0:
 			m.Result = &Att{Type: &Type{Ref: names[ti]}}
+			if index%2 == 1 {
+				// the identifier travels in a response header: the body type is then derived separately per view
+				m.HTTP.Responses = []*Resp{{Code: 200, Headers: []Mapped{{Attr: "id", Wire: "X-Id"}}}}
+			}
 		case 1:
 			m.Result = &Att{Type: &Type{Collection: names[ti]}}
 		case 2:
